@@ -121,6 +121,16 @@ def beat_formula(ctx: Ctx) -> None:
     ctx.expect("R-REBUILD", fi, "player is the section index", isinstance(pl, ast.Name) and pl.id == pp, "", f"player={src(pl) if pl is not None else 'absent (defaults to 0)'}", node=c)
     ok_ks = isinstance(ks, ast.Subscript) and isinstance(ks.slice, ast.Name) and ks.slice.id == c_idx
     ctx.expect("R-REBUILD", fi, "keysound_index is the bracket value recorded for this column", ok_ks, "", f"keysound_index={src(ks) if ks is not None else 'absent (defaults to None)'}", node=c)
+    if ok_ks and isinstance(ks.value, ast.Name):
+        kb = locals_of(fi).b.get(ks.value.id, [])
+        fresh = len(kb) == 1 and kb[0].kind == "assign" and in_body(outer, kb[0].node) and not in_body(inner, kb[0].node) \
+            and isinstance(kb[0].value, ast.BinOp) and isinstance(kb[0].value.op, ast.Mult) and isinstance(kb[0].value.left, ast.List) \
+            and len(kb[0].value.left.elts) == 1 and isinstance(kb[0].value.left.elts[0], ast.Constant) and kb[0].value.left.elts[0].value is None
+        ctx.expect("R-REBUILD", fi, "the keysound scratch list is created afresh (all None) for every row", fresh, "",
+                   f"'{ks.value.id}' is not re-created inside the row loop: an index parsed on one row leaks onto later notes in the same column", node=c)
+        ex = [x for x in calls(fi) if callee_name(ctx, fi, x).endswith("NoteData._extract_keysound_indices") and in_body(outer, x)]
+        okx = len(ex) == 1 and len(ex[0].args) == 2 and isinstance(ex[0].args[1], ast.Name) and ex[0].args[1].id == ks.value.id and isinstance(ex[0].args[0], ast.Name) and ex[0].args[0].id == line_var
+        ctx.expect("R-REBUILD", fi, "that list is the one filled from this row's brackets", okx, "", "", node=c)
     # exactly one note per non-zero cell
     fs = facts(ctx, fi, c)
     nz = [(a, pol) for a, pol in fs if isinstance(a, ast.Compare) and isinstance(a.left, ast.Name) and a.left.id == cell_var]
@@ -281,15 +291,28 @@ def from_notes_fill(ctx: Ctx) -> None:
         # fill loop: for _ in range(last + 1, k)
         fills = []
         for inner in [n for st in lp.body for n in walk_no_nested(st) if isinstance(n, ast.For)]:
-            it = inner.iter
-            if isinstance(it, ast.Call) and isinstance(it.func, ast.Name) and it.func.id == "range" and len(it.args) == 2 and isinstance(it.args[1], ast.Name) and it.args[1].id == k:
+            nested_groupby = [g2 for g2, _, _, _, _ in gls if g2 is not lp and in_body(lp, g2)]
+            if any(in_body(g2, inner) or g2 is inner for g2 in nested_groupby):
+                continue
+            if any(isinstance(c, ast.Call) and callee(ctx, host, c) is filler and not c.args and not c.keywords for st in inner.body for c in walk_no_nested(st)):
                 fills.append(inner)
-        fl = one(fills, f"fill loop 'for _ in range(last + 1, {k})' for skipped {what}s in {host.fq}")
-        lo = fl.iter.args[0]
-        lastnames = [n.id for n in ast.walk(lo) if isinstance(n, ast.Name)]
-        last = one(lastnames, f"'last {what}' variable in {src(lo)}")
-        okr = P.equal(P.poly(lo), P.add(P.atom(last), P.const(1)))
-        ctx.expect("R-POLY", host, f"skipped {what}s: range starts at last+1", okr, src(fl.iter), f"fill range is {src(fl.iter)}: a {what} would be duplicated or lost", node=fl)
+        fl = one(fills, f"fill loop writing blank {what}s in {host.fq}")
+        it = fl.iter
+        shape = isinstance(it, ast.Call) and isinstance(it.func, ast.Name) and it.func.id == "range" and len(it.args) == 2 and not it.keywords
+        # 'last' = the sentinel initialised to -1 before the groupby loop and advanced to the group key inside it
+        cands = [n for n, bs in locals_of(host).b.items() if any(b.kind == "assign" and try_ev(ctx, host, b.value) == -1 and not in_body(lp, b.node) for b in bs)
+                 and any(b.kind == "assign" and isinstance(b.value, ast.Name) and b.value.id == k and in_body(lp, b.node) for b in bs)]
+        if len(cands) != 1 and shape:
+            # fall back to the sentinel named in the range's lower bound (its update is judged below)
+            cands = sorted({n.id for n in ast.walk(it.args[0]) if isinstance(n, ast.Name)
+                            and any(b.kind == "assign" and try_ev(ctx, host, b.value) == -1 for b in locals_of(host).b.get(n.id, []))})
+        last = one(cands, f"'last {what}' sentinel of the loop over {what}s in {host.fq}")
+        okr = bool(shape) and P.equal(P.poly(it.args[0]), P.add(P.atom(last), P.const(1))) and isinstance(it.args[1], ast.Name) and it.args[1].id == k
+        ctx.expect("R-POLY", host, f"skipped {what}s: blanks are written for range({last} + 1, {k})", okr, src(it), f"fill range is {src(it)}, not range({last} + 1, {k}): a skipped {what} "
+                   f"between two present ones would be lost or duplicated", node=fl)
+        fsf = facts(ctx, host, fl)
+        extra = [(ast.unparse(a), pol) for a, pol in fsf if not (what == "player" and pol and ast.unparse(a) == f"{k} > {last}")]
+        ctx.expect("R-ORDER", host, f"the blanks for skipped {what}s are written on every iteration that advances", not extra, "", f"the fill loop only runs under {extra}", node=fl)
         fc = [c for st in fl.body for c in walk_no_nested(st) if isinstance(c, ast.Call) and callee(ctx, host, c) is filler and not c.args and not c.keywords]
         ctx.expect("R-ORDER", host, f"each skipped {what} is written blank", len(fc) == 1, "", f"{len(fc)} blank {what} write(s) in the fill loop", node=fl)
         if sep is not None:
@@ -490,6 +513,16 @@ def grouping_order(ctx: Ctx) -> None:
         users = [n for n in body_walk(g.node) if isinstance(n, ast.Name) and n.id == "notes" and isinstance(n.ctx, ast.Load) and not any(n is x for x in ast.walk(fc))]
         ok4 = ok4 and all(gcfg.dominates(fnode, cfg_node_of(gcfg, g, u)) for u in users) and bool(users)
     ctx.expect("R-ORDER", g, "only the included note types are considered, with or without joining", ok4, "", "the include_note_types filter does not dominate every use of the stream", node=g.node)
+    # joining happens exactly when the caller asked for it (it is also what applies the orphan policies)
+    jc = [c for c in calls(g) if callee(ctx, g, c) is j]
+    okj = False
+    detail = ""
+    if len(jc) == 1:
+        fsj = [(ast.unparse(a), pol) for a, pol in facts(ctx, g, jc[0])]
+        detail = str(fsj)
+        okj = fsj == [("join_heads_to_tails", True)] and len(jc[0].args) == 1 and isinstance(jc[0].args[0], ast.Name) and jc[0].args[0].id == "notes"
+    ctx.expect("R-ORDER", g, "heads are joined to tails (and orphan policies applied) exactly when join_heads_to_tails is set", okj, detail,
+               f"the joining pass runs under {detail}: with the option set but the extra condition false, orphaned heads/tails are emitted as plain notes instead of being raised about or dropped", node=g.node)
     # row grouping by beat, in stream order
     gls = _groupby_loops(ctx, g)
     okg = len(gls) == 1 and ast.unparse(gls[0][4].body) == f"{gls[0][4].args.args[0].arg}.beat"
